@@ -10,13 +10,12 @@ namespace Hive
 /-! ### C02 — counters match the vehicles using them -/
 
 /-- vehicle `v` occupies a plug of type `cid` at station `sid` (directly, or through a base) -/
+def baseStation (s : Sim) (b : BaseId) : Option StationId := (s.base? b).bind (·.station)
+
 def holdsPlug (s : Sim) (sid : StationId) (cid : ChargerId) (v : Vehicle) : Bool :=
   match v.act with
   | .chargingStation s' c' => s' == sid && c' == cid
-  | .chargingBase b c' =>
-    c' == cid && (match s.base? b with
-      | some base => base.station == some sid
-      | none => false)
+  | .chargingBase b c' => c' == cid && baseStation s b == some sid
   | _ => false
 
 def queuesFor (sid : StationId) (cid : ChargerId) (v : Vehicle) : Bool :=
